@@ -333,6 +333,11 @@ static void init_s3() {
     bad("entity-used-undeclared-ref-in-value", "<!DOCTYPE a [<!ENTITY e '&zz;'>]><a>&e;</a>", true);
     good("predefined-redeclared", "<!DOCTYPE a [<!ENTITY lt '&#38;#60;'><!ENTITY amp '&#38;#38;'>]><a>&lt;&amp;</a>", true);
     bad("attlist-default-lt", "<!DOCTYPE a [<!ATTLIST a x CDATA '<'>]><a/>", true); bad("doctype-unterminated", "<!DOCTYPE a [<!ENTITY e 'v'>", true); bad("decl-in-content", "<a><!ENTITY e 'v'></a>");
+    // exceptions thrown while a parameter-entity reader is still on the reader stack (missing nested external PE / entity)
+    bad("pe-nested-missing-external-pe", "<!DOCTYPE r [<!ENTITY % k \"<!ENTITY &#37; n SYSTEM 'nofile.ent'>&#37;n;\">%k;]><r/>", true, false);
+    bad("pe-missing-external-pe", "<!DOCTYPE r [<!ENTITY % n SYSTEM 'nofile.pe'>%n;]><r/>", true, false);
+    bad("missing-external-subset-validating", "<!DOCTYPE r SYSTEM 'nofile.dtd'><r/>", true, false);
+    bad("pe-nested-bad-markup", "<!DOCTYPE r [<!ENTITY % k \"<!ENTITY &#37; n '<!BOGUS>'>&#37;n;\">%k;]><r/>", true, false);
     bad("cond-section-internal", "<!DOCTYPE a [<![INCLUDE[<!ENTITY e 'v'>]]>]><a/>", true);
 }
 static int g_s3_wrap = 3;
@@ -467,7 +472,7 @@ static void init_c01_tokens() {
               "<!ATTLIST a x CDATA #IMPLIED>", "<!ATTLIST a x ID #REQUIRED y IDREFS 'q'>", "<!ATTLIST a x (p|q|p) 'p'>", "<!ATTLIST a x NOTATION (n) #IMPLIED>", "<!ATTLIST a x CDATA #FIXED>", "<!ATTLIST a x ENTITIES 'u u'>",
               "<!ATTLIST a xml:space (default|preserve) 'x'>", "<!ATTLIST a", "<!ATTLIST a x NMTOKENS ' '>",
               "<!ENTITY e 'v'>", "<!ENTITY e '&e;'>", "<!ENTITY e '&#60;'>", "<!ENTITY e '<a>'>", "<!ENTITY % p 'x'>", "<!ENTITY % p '<!ENTITY e \"pv\">'>", "%p;", "<!ENTITY % q '%q;'>%q;", "<!ENTITY x SYSTEM 'x.ent'>", "<!ENTITY % xp SYSTEM 'x.pe'>%xp;",
-              "<!ENTITY u SYSTEM 'u' NDATA n>", "<!ENTITY e 'unterminated>", "<!ENTITY e PUBLIC 'p' >",
+              "<!ENTITY u SYSTEM 'u' NDATA n>", "<!ENTITY % k \"<!ENTITY &#37; n SYSTEM 'nofile.ent'>&#37;n;\">%k;", "<!ENTITY % m SYSTEM 'missing.pe'>%m;", "<!ENTITY % w \"<!ENTITY &#37; v '<!BAD'>&#37;v;\">%w;", "<!ENTITY e 'unterminated>", "<!ENTITY e PUBLIC 'p' >",
               "<!NOTATION n SYSTEM 'n'>", "<!NOTATION n PUBLIC 'p'>", "<!NOTATION n>", "<![INCLUDE[<!ENTITY e 'i'>]]>", "<![IGNORE[<![INCLUDE[ x ]]> ]]>", "<![ %p; [ ]]>", "<![INCLUDE[",
               "<!--c-->", "<?pi d?>", "<?xml version='1.0'?>", " ", "]", "<", "&e;", "\x01", "\xC3", "<!DOCTYPE a>", "<!ELEMENT \xC3\xA9 (#PCDATA)>"};
     XSDTOK = {"<xs:element name='a' type='xs:string'/>", "<xs:element name='a'/>", "<xs:element name='a' type='t'/>", "<xs:element name='a' type='xs:int' default='x'/>", "<xs:element ref='a'/>",
